@@ -222,6 +222,30 @@ def rules_old(run):
         rets = [x for x in q.walk(P, False) if isinstance(x, ast.Return)]
         for rt in rets:
             run.check(q.strictly_before(P, st, rt) or q.never_after(P, st, rt), r, pre.short, 'snapshot precedes the evaluation of preconditions', 'order', rt)
+    # the key under which a snapshot is stored must tell owners apart: a transition must not share the key of a state
+    keyfn = None
+    if keyx is not None:
+        mk = ast.parse(keyx, mode='eval').body
+        if isinstance(mk, ast.Call) and isinstance(mk.func, ast.Attribute) and isinstance(mk.func.value, ast.Name) and mk.func.value.id == 'self':
+            keyfn = run.prog.cls('PythonEvaluator').methods.get(mk.func.attr)
+    if keyfn is not None:
+        kp = [a.arg for a in keyfn.node.args.args if a.arg != 'self'][0]
+        rets_k = [n for n in q.walk(keyfn.node, False) if isinstance(n, ast.Return)]
+        kinds = []
+        for rt in rets_k:
+            for v, at in q.cases(keyfn.node, rt.value):
+                at = at + guard_atoms(rt)
+                is_tr = any(a[0] == 'truthy' and 'isinstance(%s, Transition)' % kp in a[1] for a in at)
+                txt = q.unparse(v)
+                kind = 'object' if txt == kp else 'tagged' if isinstance(v, ast.Tuple) and v.elts and isinstance(v.elts[0], ast.Constant) else 'name-like'
+                kinds.append((is_tr, kind, txt))
+        tr_kinds = {k for t_, k, x in kinds if t_}
+        st_kinds = {k for t_, k, x in kinds if not t_}
+        collide = bool(tr_kinds & st_kinds & {'name-like'}) or not tr_kinds or not st_kinds
+        run.check(not collide, r, keyfn.short, 'snapshot key of a transition differs in kind from the key of a state: %s' % sorted(kinds),
+                  'a transition and a state can share a snapshot key (%s): processing an internal transition overwrites the __old__ of its source state' % sorted(kinds), keyfn.node)
+    elif keyx is not None:
+        run.check(keyx.replace(' ', '') not in ('%s.name' % op, '%s.source' % op), r, pre.short, 'snapshot key distinguishes owners', 'key %s can collide' % keyx, P)
     fc = run.prog.cls('FrozenContext')
     init = fc.methods.get('__init__')
     cp = init is not None and any(isinstance(c, ast.Call) and dotted(c.func) in ('copy.copy', 'copy.deepcopy', 'copy', 'deepcopy') for c in q.calls(init.node)) \
